@@ -124,8 +124,8 @@ func newWorld(rngFor func(stream string, idx int) *rand.Rand) (*world, error) {
 	g.Read(w.genesisRoot[:])
 	w.oracle.genesisRoot = w.genesisRoot
 
-	w.p0A = 1100                              // slots around 9.0 M: in the past of now0
-	w.p0B = period(now0+futureMargin) + 2     // everything in this world is in the future
+	w.p0A = 1100                          // slots around 9.0 M: in the past of now0
+	w.p0B = period(now0+futureMargin) + 2 // everything in this world is in the future
 	probe := []uint64{w.p0A * slotsPerPeriod, now0, (w.p0B + 40) * slotsPerPeriod}
 	fv := w.spec.ForkVersion(common.Slot(probe[0]))
 	for _, s := range probe {
@@ -156,9 +156,9 @@ func newWorld(rngFor func(stream string, idx int) *rand.Rand) (*world, error) {
 	// "now" = slot now0 (+ the few slots this run lasts): no wall-clock sensitivity
 	genesisTime := uint64(time.Now().Unix()) - now0*uint64(w.spec.SECONDS_PER_SLOT) - uint64(w.spec.SECONDS_PER_SLOT)/2
 	w.cfg = &beacon.Config{
-		ConsensusAPI: "verif",
-		Chain:        beacon.ChainConfig{ChainID: 1, GenesisTime: genesisTime, GenesisRoot: common.Root(w.genesisRoot)},
-		Spec:         w.spec,
+		ConsensusAPI:     "verif",
+		Chain:            beacon.ChainConfig{ChainID: 1, GenesisTime: genesisTime, GenesisRoot: common.Root(w.genesisRoot)},
+		Spec:             w.spec,
 		MaxCheckpointAge: 1_209_600,
 	}
 	return w, nil
@@ -211,9 +211,9 @@ type updParams struct {
 	kind, fork    string
 	att, fin, sig uint64
 	bits          [committeeSize / 8]byte
-	signer        *committee // whose secret keys sign
+	signer        *committee               // whose secret keys sign
 	signBits      *[committeeSize / 8]byte // members that really sign (default: bits)
-	next          *committee // committee placed at gindex 55 and shipped in a full update
+	next          *committee               // committee placed at gindex 55 and shipped in a full update
 	curInState    *committee
 	forkVersion   [4]byte
 	genesisRoot   h32
